@@ -3,5 +3,5 @@ CONSTANTS
   InOrder = TRUE
 INIT Init
 NEXT Next
-INVARIANTS TransparentOK OnlyExposedOK HopsOKInv
+INVARIANT Done
 CHECK_DEADLOCK FALSE
